@@ -472,3 +472,9 @@ def r_sib_r_c17_7(ctx):
 def r_sib_r_c17_8(ctx):
     from .c02 import r5 as request_bounded
     request_bounded(ctx)
+
+
+@rule("R-C17-9", min_instances=100, title="cookies stored from earlier responses cannot make a later connect() raise: the jar's lookup is folded on histories of Set-Cookie headers (same name under two covering domains included) and returns a string, never an exception of the standard library")
+def r_sib_r_c17_9(ctx):
+    from .c20 import r1 as jar_histories
+    jar_histories(ctx)
